@@ -39,9 +39,13 @@ type SchemaValidator struct {
 //
 // When no pre-parsed *spec.Schema structure is provided, it uses a JSON schema as default. See example.
 func AgainstSchema(schema *spec.Schema, data interface{}, formats strfmt.Registry, options ...Option) error {
-	res := NewSchemaValidator(schema, nil, "", formats,
-		append(options, WithRecycleValidators(true), withRecycleResults(true))...,
-	).Validate(data)
+	// the caller's option list is copied: appending to it could write into a backing array that the caller
+	// shares with other calls
+	opts := make([]Option, 0, len(options)+2) //nolint:mnd
+	opts = append(opts, options...)
+	opts = append(opts, WithRecycleValidators(true), withRecycleResults(true))
+
+	res := NewSchemaValidator(schema, nil, "", formats, opts...).Validate(data)
 	defer func() {
 		pools.poolOfResults.RedeemResult(res)
 	}()
